@@ -5,12 +5,19 @@ Complete small-scope input enumeration on the real code:
   layer "fn"   a dense grid of distances / probabilities through the Haldane and Kosambi
                mapfn / invmapfn (range, end points, monotonicity, literature value, both
                round trips, shape preservation);
-  layer "map"  every genetic map with <= 2 chromosomes, 2-3 markers each, positions from a
-               4-value alphabet, in EVERY row order, for StandardGeneticMap and
-               ExtendedGeneticMap (state after construction = sorted rows + true partition;
-               interpolation at own markers / between flanking markers / outside / absent
-               chromosome), plus per map the distance laws (gdist1g/2g/1p/2p incl. all index
-               windows, rprob*), interp_gmap and interp_xoprob on three matrix classes.
+  layer "map"  every genetic map with <= 2 chromosomes, 2-3 markers each (plus 3 chromosomes x 2
+               markers), positions from a 4-value alphabet, in EVERY row order, for
+               StandardGeneticMap and ExtendedGeneticMap and three construction modes (default;
+               auto_group=False + build_spline(); centiMorgan input).  Per row order: the whole
+               state after construction = sorted row list + true chromosome partition + row
+               attributes still attached, interpolation at chromosome ends and segment midpoints.
+               Per map: interpolation kinds (own markers / between flanking markers / outside /
+               absent chromosome, query-order independence), gdist1g/2g/1p/2p incl. index windows,
+               rprob*, interp_gmap (+ the derived map obeys the own-marker law) and interp_xoprob
+               on three matrix classes x both map functions.
+               quick tier: second chromosome from a covering set; thorough tier: all pairs of
+               chromosome configurations (3+3 markers: every first chromosome x every physical
+               layout x 5 genetic patterns of the second).
 
 States = distinct (class, construction mode, map) configurations; transitions = library
 calls (constructors and methods); one execution = one (map, row order) or one (function,
